@@ -107,6 +107,9 @@ func (x *Run) verifySweep(sw *Sweep) []*State {
 			bindings = append(bindings, Val{T: x.ptrTerm(a), S: SInt, Ty: fv.Type(), Addr: a})
 		}
 	}
+	if key := x.heldLockKey(sw.Target, args); key != "" {
+		st.held[key] = 1 // declared: callers hold the receiver's mutex
+	}
 	outs := x.runFrame(fr, args, bindings, st)
 	var finals []*State
 	for _, o := range outs {
@@ -115,6 +118,30 @@ func (x *Run) verifySweep(sw *Sweep) []*State {
 		}
 	}
 	return finals
+}
+
+// heldLockKey: for a function declared "lock-held", the lock key of its
+// receiver's mutex ("" otherwise).
+func (x *Run) heldLockKey(fn *ssa.Function, args []Val) string {
+	mf := x.spec.lockHeld[fn.String()]
+	if mf == "" || len(args) == 0 {
+		return ""
+	}
+	recv := args[0]
+	pt, ok := types.Unalias(recv.Ty).Underlying().(*types.Pointer)
+	if !ok {
+		return ""
+	}
+	stt, ok := structOf(pt.Elem())
+	if !ok {
+		return ""
+	}
+	for i := 0; i < stt.NumFields(); i++ {
+		if stt.Field(i).Name() == mf {
+			return x.lockKey(&Addr{Kind: AField, Ref: recv.T, Ty: pt.Elem(), Field: i})
+		}
+	}
+	return ""
 }
 
 // checkNoBlock: structural bounded-blocking check.  Every channel send in fn
